@@ -26,7 +26,8 @@
 From Coq Require Import List NArith ZArith Bool Arith Lia.
 From GmsmVerif Require Import Lib.Outcome X509.NameMatchSpec X509.PathSpec X509.VerifyModel
   X509.NameMatchProofs X509.VerifyProofs.
-From GmsmVerif Require Gen.X509Verify.
+From GmsmVerif Require Gen.X509Verify Gen.X509Tables.
+From GmsmVerif Require Import X509.DerLayer X509.DerLayerProofs X509.ExtModel X509.ExtProofs.
 Import ListNotations.
 
 (* ---------- 1. the matchers, all strings ----------------------------------------------------------- *)
@@ -94,7 +95,7 @@ Theorem verify_complete :
   forall sig_ok parse_ip rune_error roots inters opts fuel leaf ch,
     valid_chain sig_ok parse_ip roots inters opts leaf ch ->
     strict_extras opts ch ->
-    (forall ups, ch = leaf :: ups -> keyids_wf leaf ups) ->
+    (forall ups, ch = leaf :: ups -> keyids_wf roots inters leaf ups) ->
     ~ In invalidUsage (o_keyusages opts) ->
     length inters < fuel ->
     sigchecks_used sig_ok roots inters opts fuel leaf <= maxChainSignatureChecks ->
@@ -111,7 +112,7 @@ Theorem verify_complete_plain :
     (forall c, In c roots \/ In c inters -> unrestricted c) ->
     c_permitted leaf = [] ->
     valid_chain sig_ok parse_ip roots inters opts leaf ch ->
-    (forall ups, ch = leaf :: ups -> keyids_wf leaf ups) ->
+    (forall ups, ch = leaf :: ups -> keyids_wf roots inters leaf ups) ->
     ~ In invalidUsage (o_keyusages opts) ->
     length inters < fuel ->
     sigchecks_used sig_ok roots inters opts fuel leaf <= maxChainSignatureChecks ->
@@ -139,7 +140,7 @@ Theorem verify_complete_small_pools :
     budget_bound (length roots + length inters) (length inters) <= maxChainSignatureChecks ->
     valid_chain sig_ok parse_ip roots inters opts leaf ch ->
     strict_extras opts ch ->
-    (forall ups, ch = leaf :: ups -> keyids_wf leaf ups) ->
+    (forall ups, ch = leaf :: ups -> keyids_wf roots inters leaf ups) ->
     ~ In invalidUsage (o_keyusages opts) ->
     exists chains,
       Verify_model sig_ok parse_ip rune_error roots inters opts (length inters + 1) leaf = Ok chains /\ chains <> [].
@@ -164,6 +165,57 @@ Theorem model_constants_are_the_source_constants :
   N.of_nat rootCertificate = X509Verify.gen_rootCertificate.
 Proof. vm_compute. repeat split; reflexivity. Qed.
 Print Assumptions model_constants_are_the_source_constants.
+
+(* ... and the key-usage / extended-key-usage constants the specification names are those of x509.go *)
+Theorem spec_constants_are_the_source_constants :
+  KeyUsageCertSign = X509Tables.c_KeyUsageCertSign /\
+  EKU_Any = Z.of_N X509Tables.c_ExtKeyUsageAny /\
+  EKU_ServerAuth = Z.of_N X509Tables.c_ExtKeyUsageServerAuth /\
+  EKU_MicrosoftSGC = Z.of_N X509Tables.c_ExtKeyUsageMicrosoftServerGatedCrypto /\
+  EKU_NetscapeSGC = Z.of_N X509Tables.c_ExtKeyUsageNetscapeServerGatedCrypto.
+Proof. vm_compute. repeat split; reflexivity. Qed.
+Print Assumptions spec_constants_are_the_source_constants.
+
+(* ---------- 3b. the two readings of the path-length constraint --------------------------------------------
+   [valid_chain] counts every intermediate (what the implementation does); [valid_chain_rfc] does not
+   count self-issued intermediates (RFC 5280 4.2.1.9 / 6.1.4 (l)).  Soundness holds for both readings;
+   completeness for the RFC reading needs the premise that the chain has no self-issued intermediate,
+   and [C10_self_issued_intermediates_are_counted] shows that it cannot be dropped: the
+   implementation is fail-closed on key roll-over certificates under a tight path length. *)
+Theorem verify_sound_rfc :
+  forall sig_ok parse_ip rune_error roots inters opts fuel leaf chains,
+    (forall r, In r roots -> c_v3 r = true) ->
+    (forall i, In i inters -> c_entrust_spki i = false) ->
+    c_entrust_spki leaf = false ->
+    (forall r, In r roots -> c_id r = c_id leaf -> r = leaf) ->
+    ~ In invalidUsage (o_keyusages opts) ->
+    Verify_model sig_ok parse_ip rune_error roots inters opts fuel leaf = Ok chains ->
+    forall ch, In ch chains -> valid_chain_rfc sig_ok parse_ip roots inters opts leaf ch.
+Proof.
+  intros sig_ok parse_ip rune_error roots inters opts fuel leaf chains H1 H2 H3 H4 H5 H6 ch Hch.
+  destruct (verify_sound_lemma sig_ok parse_ip rune_error roots inters opts fuel leaf chains H1 H2 H3 H4 H5 H6) as [_ H].
+  apply valid_chain_to_rfc. exact (proj1 (H ch Hch)).
+Qed.
+Print Assumptions verify_sound_rfc.
+
+Theorem verify_complete_rfc :
+  forall sig_ok parse_ip rune_error roots inters opts fuel leaf ups,
+    valid_chain_rfc sig_ok parse_ip roots inters opts leaf (leaf :: ups) ->
+    no_self_issued_intermediate ups ->
+    strict_extras opts (leaf :: ups) ->
+    keyids_wf roots inters leaf ups ->
+    ~ In invalidUsage (o_keyusages opts) ->
+    length inters < fuel ->
+    sigchecks_used sig_ok roots inters opts fuel leaf <= maxChainSignatureChecks ->
+    exists chains,
+      Verify_model sig_ok parse_ip rune_error roots inters opts fuel leaf = Ok chains /\ chains <> [].
+Proof.
+  intros sig_ok parse_ip rune_error roots inters opts fuel leaf ups Hv Hns He Hk Hu Hf Hs.
+  apply (verify_complete_lemma sig_ok parse_ip rune_error roots inters opts fuel leaf (leaf :: ups)); try assumption.
+  - apply valid_chain_of_rfc; assumption.
+  - intros ups' E. injection E as <-. exact Hk.
+Qed.
+Print Assumptions verify_complete_rfc.
 
 (* ---------- 4. termination ----------------------------------------------------------------------------- *)
 (* fuel |intermediates| + 1 suffices for every call of buildChains: each level adds a new intermediate *)
@@ -200,7 +252,7 @@ Proof. vm_compute. split; reflexivity. Qed.
 (* the hypotheses of verify_complete are satisfiable (non-vacuity): the chain above is a valid chain *)
 Example verify_example_valid :
   valid_chain ex_sig no_ip [exR] [exI] ex_opts exL [exL; exI; exR] /\ strict_extras ex_opts [exL; exI; exR]
-  /\ keyids_wf exL [exI; exR].
+  /\ keyids_wf [exR] [exI] exL [exI; exR].
 Proof.
   assert (H : Verify_model ex_sig no_ip no_re [exR] [exI] ex_opts 2 exL = Ok [[exL; exI; exR]]) by (vm_compute; reflexivity).
   eapply verify_sound in H.
@@ -230,7 +282,7 @@ Definition sig1 := sig_by (fun i => match i with 2 => 0 | _ => 0 end).
 Theorem C10_incomplete_beyond_budget :
   exists sig_ok roots inters opts leaf ch,
     valid_chain sig_ok no_ip roots inters opts leaf ch /\ strict_extras opts ch /\
-    (forall ups, ch = leaf :: ups -> keyids_wf leaf ups) /\
+    (forall ups, ch = leaf :: ups -> keyids_wf roots inters leaf ups) /\
     Verify_model sig_ok no_ip no_re roots inters opts (length inters + 1) leaf = Err 4 /\
     maxChainSignatureChecks < sigchecks_used sig_ok roots inters opts (length inters + 1) leaf.
 Proof.
@@ -336,7 +388,7 @@ Definition s_opts := mkOpts [97;46;98]%N 50 [].
 
 Theorem C10_budget_reached_by_small_pki :
   valid_chain s_sig no_ip [sB1; sB2; sR] [sI1; sI2; sI3; sI4] s_opts sL [sL; sI4; sR] /\
-  strict_extras s_opts [sL; sI4; sR] /\ keyids_wf sL [sI4; sR] /\
+  strict_extras s_opts [sL; sI4; sR] /\ keyids_wf [sB1; sB2; sR] [sI1; sI2; sI3; sI4] sL [sI4; sR] /\
   Verify_model s_sig no_ip no_re [sB1; sB2; sR] [sI1; sI2; sI3; sI4] s_opts 5 sL = Err 4 /\
   sigchecks_used s_sig [sB1; sB2; sR] [sI1; sI2; sI3; sI4] s_opts 5 sL = 105 /\
   Verify_model s_sig no_ip no_re [sB1; sB2; sR] [sI4; sI1; sI2; sI3] s_opts 5 sL = Ok [[sL; sI4; sR]].
@@ -358,3 +410,97 @@ Proof.
   vm_compute. repeat split; reflexivity.
 Qed.
 Print Assumptions C10_budget_reached_by_small_pki.
+
+(* (e) self-issued intermediates are counted: root R (MaxPathLen 1) certifies A (old key); A certifies
+   its own new key (a self-issued roll-over certificate S); the new key certifies the leaf.  RFC 5280
+   does not count S, so [leaf; S; A; R] respects R's path length; the implementation counts it and
+   finds no chain. *)
+Definition rR := mkCert 0 true [1]%N [1]%N [] [] 0 100 true true 1 0 [] [] [] [] [] false false false.
+Definition rA := mk_ca 31 [2]%N [1]%N.
+Definition rS := mk_ca 32 [2]%N [2]%N.
+Definition rL := mk_ee 33 [3]%N [2]%N [97;46;98]%N.
+Definition r_sig := sig_by (fun i => match i with 33 => 32 | 32 => 31 | 31 => 0 | _ => 0 end).
+
+Theorem C10_self_issued_intermediates_are_counted :
+  valid_chain_rfc r_sig no_ip [rR] [rA; rS] s_opts rL [rL; rS; rA; rR] /\
+  strict_extras s_opts [rL; rS; rA; rR] /\ keyids_wf [rR] [rA; rS] rL [rS; rA; rR] /\
+  ~ no_self_issued_intermediate [rS; rA; rR] /\
+  Verify_model r_sig no_ip no_re [rR] [rA; rS] s_opts 3 rL = Err 4.
+Proof.
+  split.
+  { exists [rS; rA; rR]. split; [reflexivity|]. split.
+    { unfold leaf_ok. split; [reflexivity|]. split; [validity|]. split.
+      - intros _. apply (VerifyHostname_iff no_ip no_re). vm_compute. reflexivity.
+      - right. exists EKU_ServerAuth. split; [left; reflexivity|]. intros c [<-|[]]. left. split; reflexivity. }
+    split.
+    { cbn [issuers_ok_rfc]. split; [by_hand_issuer|].
+      destruct (self_issued_dec rS) as [_|n]; [|exfalso; apply n; reflexivity].
+      split; [by_hand_issuer|].
+      destruct (self_issued_dec rA) as [e|_]; [discriminate e|].
+      split; [by_hand_issuer|exact I]. }
+    split. { cbn. repeat constructor; cbn; intuition discriminate. }
+    unfold from_pools. cbn [rev app]. split; [left; reflexivity|].
+    intros m [<-|[<-|[]]]; [left|right; left]; reflexivity. }
+  split.
+  { split.
+    - right. exists EKU_ServerAuth. split; [left; reflexivity|]. intros c [<-|[<-|[<-|[<-|[]]]]]; left; split; reflexivity.
+    - intros c [<-|[<-|[<-|[<-|[]]]]] H; exfalso; apply H; reflexivity. }
+  split. { cbn. repeat split; left; reflexivity. }
+  split. { intro H. apply (H rS); [cbn; left; reflexivity|reflexivity]. }
+  vm_compute. reflexivity.
+Qed.
+Print Assumptions C10_self_issued_intermediates_are_counted.
+
+(* ---------- 6. name constraints the package does not handle -----------------------------------------------
+   Verify reads only Certificate.PermittedDNSDomains.  What happens to every other constraint is decided
+   when the certificate is parsed (parseCertificate, case 30; byte-level model X509/ExtModel.v).  For ALL
+   NameConstraints values with arbitrary GeneralNames as subtree bases ([nc_value permitted excluded];
+   [gn_ok]: low tag number, dNSName bases are IA5; [small]: below 2^31 bytes): *)
+
+(* a CRITICAL extension with any excluded subtree, or with a permitted subtree that is not a non-empty
+   dNSName (iPAddress, rfc822Name, directoryName, URI ...), makes ParseCertificate fail with
+   UnhandledCriticalExtension: such a certificate never reaches a pool or Verify *)
+Theorem name_constraints_critical_unhandled_rejected :
+  forall permitted excluded,
+    Forall gn_ok permitted -> Forall gn_ok excluded -> small (nc_value permitted excluded) ->
+    (excluded <> [] \/ exists g, In g permitted /\ name_of g = []) ->
+    parse_name_constraints true (nc_value permitted excluded) = Err 4.
+Proof.
+  intros permitted excluded Hp He Hs H. rewrite (parse_nc_general true permitted excluded Hp He Hs).
+  destruct excluded as [|e es]; [|reflexivity]. cbn [List.length Nat.eqb negb andb].
+  destruct H as [H|[g [Hg Hn]]]; [contradiction|].
+  rewrite permitted_loop_critical_empty; [reflexivity|]. rewrite <- Hn. apply in_map. exact Hg.
+Qed.
+Print Assumptions name_constraints_critical_unhandled_rejected.
+
+(* in a NON-critical extension the same constraints are dropped without a trace: the parsed certificate
+   keeps the non-empty dNSName bases of the permitted subtrees and nothing else, so excluded subtrees and
+   IP / e-mail / directory constraints are not enforced by Verify (RFC 5280 requires the extension to be
+   critical; the property text speaks of permitted DNS domains only) *)
+Theorem name_constraints_noncritical_others_dropped :
+  forall permitted excluded,
+    Forall gn_ok permitted -> Forall gn_ok excluded -> small (nc_value permitted excluded) ->
+    parse_name_constraints false (nc_value permitted excluded) = Ok (nonempty_names (map name_of permitted), false).
+Proof.
+  intros permitted excluded Hp He Hs. rewrite (parse_nc_general false permitted excluded Hp He Hs).
+  rewrite andb_false_r. rewrite permitted_loop_noncritical. reflexivity.
+Qed.
+Print Assumptions name_constraints_noncritical_others_dropped.
+
+(* the leaf's own unhandled critical extensions stop Verify before anything else *)
+Theorem verify_rejects_unhandled_critical_leaf :
+  forall sig_ok parse_ip rune_error roots inters opts fuel leaf,
+    c_unhandled_critical leaf = true ->
+    Verify_model sig_ok parse_ip rune_error roots inters opts fuel leaf = Err 1.
+Proof. intros. unfold Verify_model. rewrite H. reflexivity. Qed.
+Print Assumptions verify_rejects_unhandled_critical_leaf.
+
+Example name_constraints_unhandled_examples :
+  (* critical, excluded dNSName "a.b" *)
+  parse_name_constraints true (nc_value [] [(ID_CTX_DNS, [97;46;98]%N)]) = Err 4
+  (* critical, permitted iPAddress 10.0.0.0/8 *)
+  /\ parse_name_constraints true (nc_value [(ID_CTX_IP, [10;0;0;0;255;0;0;0]%N)] []) = Err 4
+  (* not critical: permitted "a.b" kept, permitted IP range and excluded "x" dropped *)
+  /\ parse_name_constraints false (nc_value [(ID_CTX_DNS, [97;46;98]%N); (ID_CTX_IP, [10;0;0;0;255;0;0;0]%N)] [(ID_CTX_DNS, [120]%N)])
+     = Ok ([[97;46;98]%N], false).
+Proof. vm_compute. repeat split; reflexivity. Qed.
